@@ -449,12 +449,12 @@ pub fn gen_cases(cfg: &RunCfg) -> Vec<Case> {
         Ty::Choice { root: vec![c("x-y", Ty::Prim("NULL"), Opt::Req)], marker: true, adds: vec![Add::Comp(c("w", Ty::SeqOf { set: false, elem: Box::new(Ty::Prim("INTEGER")), elem_tag: None }, Opt::Req))] },
     ];
     for t in fixed {
-        out.push(Case { name: format!("Tk{}E", out.len()), ty: t });
+        out.push(Case { name: if out.len() % 3 == 1 { format!("Tk-{}E", out.len()) } else { format!("Tk{}E", out.len()) }, ty: t });
     }
     while out.len() < n {
         let mut g = TyGen { rng: &mut rng, cfg: GenCfg { max_depth: 4, max_comps: 5, tags: out.len() % 3 == 0, groups: true, defaults: true } };
         let ty = if out.len() % 7 == 0 { g.ty(4) } else if out.len() % 11 == 0 { Ty::Ref(REFS[out.len() % 4].to_string()) } else { g.top() };
-        out.push(Case { name: format!("Tk{}E", out.len()), ty });
+        out.push(Case { name: if out.len() % 3 == 1 { format!("Tk-{}E", out.len()) } else { format!("Tk{}E", out.len()) }, ty });
     }
     out
 }
